@@ -48,7 +48,7 @@ impl References {
     /// modules must not turn the check into hours of waiting.
     pub fn note_death(&mut self, d: &Death) {
         if let Death::Timeout(_) = d {
-            self.timeout = self.timeout.min(Duration::from_secs(15));
+            self.timeout = self.timeout.min(Duration::from_secs(30));
         }
     }
     /// Drops a memoised reference (generated tasks are used once).
